@@ -33,6 +33,7 @@ use nextest_runner::{
     runner::TestRunnerBuilder,
     signal::SignalHandlerKind,
     target_runner::TargetRunner,
+    test_output::CaptureStrategy,
     test_filter::{FilterBound, RunIgnored, TestFilterBuilder, TestFilterPatterns},
 };
 use serde_json::{json, Value};
@@ -224,7 +225,12 @@ fn run_tests(path: &str) {
         .map(|t| json!([t.name, t.test_info.ignored]))
         .collect();
 
-    let runner = TestRunnerBuilder::default()
+    let mut builder = TestRunnerBuilder::default();
+    if sc["no_capture"].as_bool().unwrap_or(false) {
+        // --no-capture: the tests inherit stdout/stderr (and must still get the null device as stdin)
+        builder.set_capture_strategy(CaptureStrategy::None);
+    }
+    let runner = builder
         .build(
             &test_list,
             &profile,
